@@ -125,6 +125,14 @@ func init() {
 		out = append(out, pf.Z[:]...)
 		return val.Ok(val.Ints(out))
 	})
+	// dln_unmarshal_verify [wire parts] h1 h2 N : decode, then verify when the decoder accepts
+	vc.Register("dln_unmarshal_verify", func(a []val.V) val.V {
+		pf, err := dlnproof.UnmarshalDLNProof(val.AsBytesList(a[0]))
+		if err != nil || pf == nil {
+			return val.Err
+		}
+		return val.Ok(okb(pf.Verify(val.AsInt(a[1]), val.AsInt(a[2]), val.AsInt(a[3]))))
+	})
 	vc.Register("dln_unmarshal", func(a []val.V) val.V {
 		pf, err := dlnproof.UnmarshalDLNProof(val.AsBytesList(a[0]))
 		if err != nil || pf == nil {
